@@ -31,7 +31,7 @@ use std::collections::{BTreeMap, BTreeSet};
 use std::future::Future;
 use std::pin::Pin;
 use std::rc::Rc;
-use std::sync::Arc;
+use std::sync::{Arc, Mutex};
 use std::sync::atomic::Ordering::{Acquire, Relaxed, Release, SeqCst};
 use std::sync::atomic::{AtomicBool, AtomicU32, AtomicU64, AtomicUsize};
 use std::task::{Context as TaskCx, Poll, Wake, Waker};
@@ -234,6 +234,8 @@ struct Shared {
     tick_ends: AtomicU64,
     /// Cross-thread part only: last program point the runner passed.
     cur: AtomicU32,
+    /// Cross-thread part only: wakes of the current round that have not been fired yet.
+    wakes_pending: AtomicU64,
 }
 
 impl Shared {
@@ -242,6 +244,7 @@ impl Shared {
             tick_starts: AtomicU64::new(0),
             tick_ends: AtomicU64::new(0),
             cur: AtomicU32::new(L_IDLE),
+            wakes_pending: AtomicU64::new(0),
         })
     }
 }
@@ -345,6 +348,28 @@ impl Future for YieldOnce {
             self.0 = true;
             cx.waker().wake_by_ref();
             Poll::Pending
+        }
+    }
+}
+
+/// Cross-thread part: the runner lingers at its current program point until a waker thread has
+/// fired (or is about to fire) one more wake, so that wakes land *inside* the windows even when the
+/// machine is so loaded that the threads hardly ever run in parallel. Bounded by an iteration count;
+/// returns at once when no wake is outstanding.
+fn linger_for_a_wake(sh: &Shared) {
+    let w0 = sh.wakes_pending.load(SeqCst);
+    if w0 == 0 {
+        return;
+    }
+    let limit = if cfg!(miri) { 6 } else { 4000 };
+    for i in 0..limit {
+        if sh.wakes_pending.load(Relaxed) != w0 {
+            return;
+        }
+        if cfg!(miri) || i % 64 == 63 {
+            std::thread::yield_now();
+        } else {
+            std::hint::spin_loop();
         }
     }
 }
@@ -557,8 +582,12 @@ fn trace_string(d: &Det) -> String {
 fn judge(v: &Variant, det: &DetRef, sh: &Shared, out: &mut CaseOutcome, moment: &str) {
     let now = sh.tick_starts.load(SeqCst);
     let mut d = det.borrow_mut();
-    let trace = trace_string(&d);
-    for w in d.wakes.iter_mut() {
+    let mut trace: Option<String> = None;
+    for i in 0..d.wakes.len() {
+        if !d.wakes[i].judged && now <= d.wakes[i].c_before && trace.is_none() {
+            trace = Some(trace_string(&d));
+        }
+        let w = &mut d.wakes[i];
         if w.judged {
             continue;
         }
@@ -579,7 +608,7 @@ fn judge(v: &Variant, det: &DetRef, sh: &Shared, out: &mut CaseOutcome, moment: 
         let sig = format!("C27|{}|no tick after wake|{}", v.mode.site(), class);
         let what = format!(
             "wake fired at {}#{} when {} tick(s) had started; {} with still {} tick(s) started: the wake-up was missed. variant={} trace: {}",
-            w.win.label(), w.win.occ(), w.c_before, moment, now, v.name(), trace
+            w.win.label(), w.win.occ(), w.c_before, moment, now, v.name(), trace.as_deref().unwrap_or("")
         );
         out.violations.push((sig, what));
     }
@@ -744,6 +773,7 @@ struct DetStats {
     polls: u64,
     cases: u64,
     cases_all_fired: u64,
+    harness_problems: Vec<String>,
 }
 
 fn do_det_case(rep: &mut Reporter, st: &mut DetStats, v: Variant, plan: &[Win]) {
@@ -760,7 +790,9 @@ fn do_det_case(rep: &mut Reporter, st: &mut DetStats, v: Variant, plan: &[Win]) 
     }
     if let Some(p) = out.harness_problem.as_ref() {
         rep.count("det:harness_problem");
-        rep.require(false, p);
+        if st.harness_problems.len() < 5 {
+            st.harness_problems.push(p.clone());
+        }
     }
     if out.all_planned_fired {
         st.cases_all_fired += 1;
@@ -773,21 +805,23 @@ fn do_det_case(rep: &mut Reporter, st: &mut DetStats, v: Variant, plan: &[Win]) 
         rep.count("det:case_with_unreached_window");
     }
     for (sig, what) in out.violations.iter() {
-        rep.violation(sig, what, det_case_json(&v, plan));
+        report_violation(rep, sig, what, det_case_json(&v, plan));
     }
 }
 
 fn det_sweep(args: &Args, rep: &mut Reporter) -> DetStats {
-    let mut st = DetStats { hits: BTreeMap::new(), ticks: 0, polls: 0, cases: 0, cases_all_fired: 0 };
+    let mut st = DetStats { hits: BTreeMap::new(), ticks: 0, polls: 0, cases: 0, cases_all_fired: 0, harness_problems: vec![] };
     let mut rng = args.rng().fork(0xD37);
     let miri = args.tier == Tier::Miri;
     let mut case_index = 0usize;
+    let mut pair_index = 0usize;
     for v in all_variants() {
         let ws = windows_of(&v, 3);
-        // singles
+        // singles (under Miri this single-threaded part is the same for every Miri seed: a thin slice
+        // of it is enough to have the interpreter look at every code path of the harness and runner)
         for w in ws.iter() {
             case_index += 1;
-            if miri && !args.in_shard(case_index) {
+            if miri && !(case_index % 31 == args.seed as usize % 31 && args.in_shard(case_index / 31)) {
                 continue;
             }
             do_det_case(rep, &mut st, v, &[*w]);
@@ -800,12 +834,10 @@ fn det_sweep(args: &Args, rep: &mut Reporter) -> DetStats {
                 }
             }
         } else {
-            for _ in 0..6 {
-                let (a, b) = (*rng.choose(&ws), *rng.choose(&ws));
-                case_index += 1;
-                if args.in_shard(case_index) {
-                    do_det_case(rep, &mut st, v, &[a, b]);
-                }
+            let (a, b) = (*rng.choose(&ws), *rng.choose(&ws));
+            pair_index += 1;
+            if pair_index % 2 == 0 && args.in_shard(pair_index / 2) {
+                do_det_case(rep, &mut st, v, &[a, b]);
             }
         }
     }
@@ -833,15 +865,144 @@ struct StressStats {
     at: [u64; 14],
     woken_by_runner_side: u64,
     max_polls_in_round: u64,
+    hang_guard: bool,
+}
+
+impl StressStats {
+    fn new() -> StressStats {
+        StressStats {
+            wakes: 0,
+            rounds: 0,
+            epochs: 0,
+            ticks: 0,
+            polls: 0,
+            at: [0; 14],
+            woken_by_runner_side: 0,
+            max_polls_in_round: 0,
+            hang_guard: false,
+        }
+    }
 }
 
 fn at_name(i: usize) -> &'static str {
     if i < 10 { POINTS[i] } else { L_NAMES[i - 10] }
 }
 
+/// What one waker thread does in one round.
+struct Job {
+    round: u64,
+    seed: u64,
+    wakes: usize,
+    /// upper bound of the random delay (spin iterations) before each wake
+    delay: u32,
+    waker: Waker,
+    sh: Arc<Shared>,
+}
+
+struct Slot {
+    job: Mutex<Option<Job>>,
+    result: Mutex<Option<Vec<(u32, u64)>>>,
+}
+
+/// Two persistent waker threads (spawned once; a round hands each of them a `Job`).
+struct Pool {
+    slots: Vec<Arc<Slot>>,
+    handles: Vec<std::thread::JoinHandle<()>>,
+    /// start signal: the round number the workers may run
+    go: Arc<AtomicU64>,
+    done: Arc<AtomicUsize>,
+    stop: Arc<AtomicBool>,
+}
+
+impl Pool {
+    fn new(n: usize) -> Pool {
+        let go = Arc::new(AtomicU64::new(0));
+        let done = Arc::new(AtomicUsize::new(0));
+        let stop = Arc::new(AtomicBool::new(false));
+        let main_thread = std::thread::current();
+        let mut slots = vec![];
+        let mut handles = vec![];
+        for _ in 0..n {
+            let slot = Arc::new(Slot { job: Mutex::new(None), result: Mutex::new(None) });
+            slots.push(slot.clone());
+            let (go, done, stop, main_thread) = (go.clone(), done.clone(), stop.clone(), main_thread.clone());
+            handles.push(std::thread::spawn(move || {
+                loop {
+                    let job = loop {
+                        if let Some(j) = slot.job.lock().unwrap().take() {
+                            break j;
+                        }
+                        if stop.load(SeqCst) {
+                            return;
+                        }
+                        std::thread::park();
+                    };
+                    let mut n = 0u32;
+                    while go.load(Acquire) != job.round {
+                        if stop.load(SeqCst) {
+                            return;
+                        }
+                        n += 1;
+                        if cfg!(miri) || n % 256 == 0 {
+                            std::thread::yield_now();
+                        } else {
+                            std::hint::spin_loop();
+                        }
+                    }
+                    let mut r = Rng::new(job.seed);
+                    let mut recs = Vec::with_capacity(job.wakes);
+                    for i in 0..job.wakes {
+                        if job.delay > 0 {
+                            spin(r.below(job.delay as usize) as u32);
+                        }
+                        let at = job.sh.cur.load(Relaxed);
+                        // "after the wake" is defined by this read: ticks counted later started later
+                        let c = job.sh.tick_starts.load(SeqCst);
+                        // a lingering runner is released either just before or just after the wake
+                        let release_first = r.chance(1, 3);
+                        if release_first {
+                            job.sh.wakes_pending.fetch_sub(1, SeqCst);
+                        }
+                        if i % 2 == 0 {
+                            job.waker.wake_by_ref();
+                        } else {
+                            job.waker.clone().wake();
+                        }
+                        if !release_first {
+                            job.sh.wakes_pending.fetch_sub(1, SeqCst);
+                        }
+                        recs.push((at, c));
+                    }
+                    drop(job);
+                    *slot.result.lock().unwrap() = Some(recs);
+                    done.fetch_add(1, SeqCst);
+                    main_thread.unpark();
+                }
+            }));
+        }
+        Pool { slots, handles, go, done, stop }
+    }
+    fn shutdown(self) {
+        self.stop.store(true, SeqCst);
+        for h in self.handles.iter() {
+            h.thread().unpark();
+        }
+        for h in self.handles {
+            let _ = h.join();
+        }
+    }
+}
+
 /// One epoch = a fresh `Dfir` on this thread + a few rounds; in every round 1–2 threads fire wakes
 /// at random moments and the runner is then driven to rest. Returns violations (sig, what).
-fn stress_epoch(epoch_seed: u64, tiny: bool, st: &mut StressStats, rep: &mut Reporter) -> Vec<(String, String)> {
+fn stress_epoch(
+    epoch_seed: u64,
+    tiny: bool,
+    pool: &Pool,
+    round_no: &mut u64,
+    st: &mut StressStats,
+    rep: &mut Reporter,
+) -> Vec<(String, String)> {
     let mut violations = vec![];
     let mut rng = Rng::new(epoch_seed);
     let sh = Shared::new();
@@ -862,6 +1023,8 @@ fn stress_epoch(epoch_seed: u64, tiny: bool, st: &mut StressStats, rep: &mut Rep
         }
         if r % 8 < 3 {
             spin(((r >> 8) % 48) as u32);
+        } else if r % 8 == 3 {
+            linger_for_a_wake(&s);
         }
         s.tick_ends.fetch_add(1, SeqCst);
         ctx.__end_tick();
@@ -883,14 +1046,18 @@ fn stress_epoch(epoch_seed: u64, tiny: bool, st: &mut StressStats, rep: &mut Rep
             let r = hrng.next_u64();
             if r % 4 == 0 {
                 spin(((r >> 8) % 40) as u32);
+            } else if r % 4 == 1 {
+                linger_for_a_wake(&s);
             }
         })));
     }
 
     let rounds = if tiny { 2 } else { 1 + rng.below(8) };
+    // A fresh Dfir is raced from its very first poll in the first round; afterwards the runner is idle
+    // (waker registered) when a round starts.
     let mut polled_once = false;
     for round in 0..rounds {
-        let nthreads = 1 + rng.below(2);
+        let nthreads = 1 + rng.below(pool.slots.len().min(2));
         let wmax = if tiny {
             2
         } else if rng.chance(1, 8) {
@@ -898,107 +1065,87 @@ fn stress_epoch(epoch_seed: u64, tiny: bool, st: &mut StressStats, rep: &mut Rep
         } else {
             4
         };
-        let per_thread: Vec<(u64, usize, u32)> = (0..nthreads)
-            .map(|t| {
-                let cls = [0u32, 8, 64, 400][rng.below(4)];
-                (rng.fork(100 + t as u64).next_u64(), 1 + rng.below(wmax), cls)
-            })
-            .collect();
+        *round_no += 1;
         let use_park = cfg!(miri) || rng.chance(1, 3);
-        // A fresh Dfir is raced from its very first poll in the first round; afterwards the runner is
-        // idle (waker registered) when the round starts.
-        let total_wakes: usize = per_thread.iter().map(|p| p.1).sum();
+        let mut total_wakes = 0usize;
+        pool.done.store(0, SeqCst);
+        for t in 0..nthreads {
+            let delay = [0u32, 8, 64, 400][rng.below(4)];
+            let wakes = 1 + rng.below(wmax);
+            total_wakes += wakes;
+            let job = Job {
+                round: *round_no,
+                seed: rng.fork(100 + t as u64).next_u64(),
+                wakes,
+                delay,
+                waker: waker.clone(),
+                sh: sh.clone(),
+            };
+            *pool.slots[t].job.lock().unwrap() = Some(job);
+            pool.handles[t].thread().unpark();
+        }
         // Hang guard only. The number of polls is *not* bounded by the number of wakes: while a waker
         // thread sits (possibly descheduled) inside `AtomicWaker::wake`, `register` answers by waking the
         // caller, so a correct runner busy-polls until that thread moves on.
         let polls_at_start = ew.polls.load(Relaxed);
         let poll_cap = polls_at_start + 50_000_000 + 40 * total_wakes as u64;
-        let go = AtomicBool::new(false);
-        let done = AtomicUsize::new(0);
-        let main_thread = std::thread::current();
         let mut capped = false;
+        sh.wakes_pending.store(total_wakes as u64, SeqCst);
+        pool.go.store(*round_no, Release);
 
-        let recs: Vec<Vec<(u32, u64)>> = std::thread::scope(|scope| {
-            let handles: Vec<_> = per_thread
-                .iter()
-                .map(|&(seed, w, cls)| {
-                    let (sh, waker, go, done, main_thread) = (&sh, &waker, &go, &done, &main_thread);
-                    scope.spawn(move || {
-                        let mut r = Rng::new(seed);
-                        let mut recs = Vec::with_capacity(w);
-                        while !go.load(Acquire) {
-                            spin(1);
-                        }
-                        for i in 0..w {
-                            if cls > 0 {
-                                spin(r.below(cls as usize) as u32);
-                            }
-                            let at = sh.cur.load(Relaxed);
-                            let c = sh.tick_starts.load(SeqCst);
-                            if i % 2 == 0 {
-                                waker.wake_by_ref();
-                            } else {
-                                waker.clone().wake();
-                            }
-                            recs.push((at, c));
-                        }
-                        done.fetch_add(1, SeqCst);
-                        main_thread.unpark();
-                        recs
-                    })
-                })
-                .collect();
-            go.store(true, Release);
-
-            // Runner thread: hand-written executor. Polls only when its waker was invoked (and once at
-            // the very beginning); finishes when every waker thread is done and it is at rest.
-            loop {
-                let must_poll = !polled_once || ew.woken.swap(false, SeqCst);
-                if must_poll {
-                    polled_once = true;
-                    if ew.polls.load(Relaxed) > poll_cap {
+        // Runner thread: hand-written executor. Polls only when its waker was invoked (and once at the
+        // very beginning); finishes when every waker thread is done and it is at rest.
+        let mut waits = 0u32;
+        loop {
+            let must_poll = !polled_once || ew.woken.swap(false, SeqCst);
+            if must_poll {
+                polled_once = true;
+                if ew.polls.load(Relaxed) > poll_cap {
+                    capped = true;
+                    break;
+                }
+                sh.cur.store(L_POLL_ENTRY, Relaxed);
+                match poll_runner(&ew) {
+                    Some(Poll::Pending) => {}
+                    _ => {
                         capped = true;
                         break;
                     }
-                    sh.cur.store(L_POLL_ENTRY, Relaxed);
-                    match poll_runner(&ew) {
-                        Some(Poll::Pending) => {}
-                        _ => {
-                            capped = true;
-                            break;
-                        }
-                    }
-                    sh.cur.store(L_BETWEEN, Relaxed);
+                }
+                sh.cur.store(L_BETWEEN, Relaxed);
+                continue;
+            }
+            sh.cur.store(L_IDLE, Relaxed);
+            if pool.done.load(SeqCst) == nthreads {
+                // Every wake (and its executor notification, if any) has completed.
+                if ew.woken.load(SeqCst) {
                     continue;
                 }
-                sh.cur.store(L_IDLE, Relaxed);
-                if done.load(SeqCst) == nthreads {
-                    // Every wake (and its executor notification, if any) has completed.
-                    if ew.woken.load(SeqCst) {
-                        continue;
-                    }
-                    break;
-                }
-                if use_park {
-                    std::thread::park();
-                } else {
-                    spin(1);
-                }
+                break;
             }
-            if capped {
-                // let the wakers finish before leaving the scope
-                while done.load(SeqCst) != nthreads {
+            if use_park {
+                std::thread::park();
+            } else {
+                waits += 1;
+                if waits % 512 == 0 {
                     std::thread::yield_now();
+                } else {
+                    std::hint::spin_loop();
                 }
             }
-            handles.into_iter().map(|h| h.join().expect("waker thread")).collect()
-        });
+        }
+        // collect (the workers may still be finishing if the hang guard fired)
+        while pool.done.load(SeqCst) != nthreads {
+            std::thread::yield_now();
+        }
+        let recs: Vec<Vec<(u32, u64)>> =
+            (0..nthreads).map(|t| pool.slots[t].result.lock().unwrap().take().expect("worker result")).collect();
 
         st.rounds += 1;
         st.max_polls_in_round = st.max_polls_in_round.max(ew.polls.load(Relaxed) - polls_at_start);
         if capped {
-            rep.count("stress:poll_cap_or_unexpected_ready");
-            rep.require(false, "stress: poll cap reached / run() returned");
+            rep.count("stress:hang_guard_or_unexpected_ready");
+            st.hang_guard = true;
             break;
         }
         let now = sh.tick_starts.load(SeqCst);
@@ -1041,36 +1188,65 @@ fn stress_epoch(epoch_seed: u64, tiny: bool, st: &mut StressStats, rep: &mut Rep
 }
 
 fn stress(args: &Args, rep: &mut Reporter) -> StressStats {
-    let mut st = StressStats { wakes: 0, rounds: 0, epochs: 0, ticks: 0, polls: 0, at: [0; 14], woken_by_runner_side: 0, max_polls_in_round: 0 };
-    let budget = args.budget(20_000, 2_000_000, 10) as u64;
+    let mut st = StressStats::new();
+    let budget = args.budget(100_000, 3_000_000, 60) as u64;
     let tiny = args.tier == Tier::Miri;
     let mut rng = args.rng().fork(0x57E55 + args.shard.0 as u64);
     let mut reported = 0;
+    let pool = Pool::new(2);
+    let mut round_no = 0u64;
     while st.wakes < budget {
         let epoch_seed = rng.next_u64();
-        let res = catch(|| stress_epoch(epoch_seed, tiny, &mut st, rep));
+        let res = catch(|| stress_epoch(epoch_seed, tiny, &pool, &mut round_no, &mut st, rep));
         let case = json!({"engine": "mon_wake", "family": "stress", "epoch_seed": epoch_seed.to_string(), "tiny": tiny});
         match res {
             Ok(vs) => {
                 for (sig, what) in vs {
                     reported += 1;
-                    rep.violation(&sig, &what, case.clone());
+                    report_violation(rep, &sig, &what, case.clone());
                 }
             }
             Err(msg) => {
                 clear_runner();
-                reported += 1;
-                rep.violation("C27|Dfir::run|panic|cross-thread", &format!("panic: {msg}"), case);
+                report_violation(rep, "C27|Dfir::run|panic|cross-thread", &format!("panic: {msg}"), case);
+                break; // the pool may be mid-round
             }
         }
-        if reported > 50 || rep.counter("stress:poll_cap_or_unexpected_ready") > 0 {
+        if reported > 50 || rep.counter("stress:hang_guard_or_unexpected_ready") > 0 {
             break;
         }
     }
+    pool.shutdown();
     st
 }
 
 // ---------------------------------------------------------------------------------------------
+
+/// Under `-Zmiri-many-seeds` several executions of this program share one stdout; `println!` of a
+/// `serde_json::Value` streams the text in many small writes, which the line buffer cuts every 1 KiB, so
+/// the JSON lines of concurrent executions get spliced into each other. In the Miri tier every protocol
+/// line is therefore formatted first and handed to stdout with a single `write`.
+static SINGLE_WRITE: AtomicBool = AtomicBool::new(false);
+static OWN_VIOLATIONS: AtomicU64 = AtomicU64::new(0);
+
+fn write_line(v: &Value) {
+    use std::io::Write;
+    let mut s = v.to_string();
+    s.push('\n');
+    let mut o = std::io::stdout().lock();
+    let _ = o.write_all(s.as_bytes());
+    let _ = o.flush();
+}
+
+fn report_violation(rep: &mut Reporter, sig: &str, what: &str, case: Value) {
+    if SINGLE_WRITE.load(Relaxed) {
+        if OWN_VIOLATIONS.fetch_add(1, Relaxed) < 6 {
+            write_line(&json!({"t": "violation", "prop": "C27", "sig": sig, "what": what, "case": case}));
+        }
+    } else {
+        rep.violation(sig, what, case);
+    }
+}
 
 fn replay(rep: &mut Reporter, case: &Value) {
     match case.get("family").and_then(|f| f.as_str()) {
@@ -1088,24 +1264,27 @@ fn replay(rep: &mut Reporter, case: &Value) {
                 .iter()
                 .map(|w| Win::from_json(w).expect("window"))
                 .collect();
-            let mut st = DetStats { hits: BTreeMap::new(), ticks: 0, polls: 0, cases: 0, cases_all_fired: 0 };
+            let mut st = DetStats { hits: BTreeMap::new(), ticks: 0, polls: 0, cases: 0, cases_all_fired: 0, harness_problems: vec![] };
             do_det_case(rep, &mut st, v, &plan);
         }
         Some("stress") => {
             // thread schedules are not reproducible: repeat the epoch
             let seed: u64 = case["epoch_seed"].as_str().and_then(|s| s.parse().ok()).expect("epoch_seed");
             let tiny = case["tiny"].as_bool().unwrap_or(false);
-            let mut st = StressStats { wakes: 0, rounds: 0, epochs: 0, ticks: 0, polls: 0, at: [0; 14], woken_by_runner_side: 0, max_polls_in_round: 0 };
+            let mut st = StressStats::new();
             let reps = if cfg!(miri) { 1 } else { 20_000 };
+            let pool = Pool::new(2);
+            let mut round_no = 0u64;
             for _ in 0..reps {
-                let vs = stress_epoch(seed, tiny, &mut st, rep);
+                let vs = stress_epoch(seed, tiny, &pool, &mut round_no, &mut st, rep);
                 if !vs.is_empty() {
                     for (sig, what) in vs {
-                        rep.violation(&sig, &what, case.clone());
+                        report_violation(rep, &sig, &what, case.clone());
                     }
                     break;
                 }
             }
+            pool.shutdown();
         }
         _ => {
             eprintln!("mon_wake: cannot replay this descriptor (mode {:?})", case.get("mode"));
@@ -1130,11 +1309,23 @@ fn main() {
         return;
     }
     let miri = args.tier == Tier::Miri;
+    SINGLE_WRITE.store(miri, Relaxed);
 
+    let t0 = std::time::Instant::now();
     let det = det_sweep(&args, &mut rep);
+    let t1 = std::time::Instant::now();
     let stress = stress(&args, &mut rep);
+    // diagnostics only (never part of a verdict)
+    eprintln!("mon_wake: det sweep {:?}, cross-thread part {:?}", t1 - t0, t1.elapsed());
 
     // evidence
+    let mut extra: BTreeMap<String, Value> = BTreeMap::new();
+    let mut min_fail: Vec<String> = vec![];
+    let mut require = |ok: bool, why: &str| {
+        if !ok {
+            min_fail.push(why.to_string());
+        }
+    };
     let mut windows_hit: BTreeSet<(&'static str, u8, usize)> = BTreeSet::new();
     let mut per_window: BTreeMap<String, u64> = BTreeMap::new();
     for ((_, label, occ, n), cnt) in det.hits.iter() {
@@ -1148,17 +1339,17 @@ fn main() {
         }
         m.into_iter().map(|(k, s)| (k, s.len())).collect()
     };
-    rep.extra("det_cases", json!(det.cases));
-    rep.extra("det_cases_all_windows_reached", json!(det.cases_all_fired));
-    rep.extra("det_ticks_observed", json!(det.ticks));
-    rep.extra("det_polls", json!(det.polls));
-    rep.extra("det_distinct_windows_hit(point,occurrence,n_wakes)", json!(windows_hit.len()));
-    rep.extra("det_distinct_windows_hit_per_variant", json!(per_variant_windows));
-    rep.extra("det_wakes_fired_per_window", json!(per_window));
+    extra.insert("det_cases".into(), json!(det.cases));
+    extra.insert("det_cases_all_windows_reached".into(), json!(det.cases_all_fired));
+    extra.insert("det_ticks_observed".into(), json!(det.ticks));
+    extra.insert("det_polls".into(), json!(det.polls));
+    extra.insert("det_distinct_windows_hit(point,occurrence,n_wakes)".into(), json!(windows_hit.len()));
+    extra.insert("det_distinct_windows_hit_per_variant".into(), json!(per_variant_windows));
+    extra.insert("det_wakes_fired_per_window".into(), json!(per_window));
     let stress_at: BTreeMap<&'static str, u64> =
         (0..14).filter(|i| stress.at[*i] > 0).map(|i| (at_name(i), stress.at[i])).collect();
-    rep.extra(
-        "stress",
+    extra.insert(
+        "stress".into(),
         json!({"wakes": stress.wakes, "rounds": stress.rounds, "fresh_dataflows": stress.epochs,
                "ticks_observed": stress.ticks, "polls": stress.polls,
                "executor_notifications": stress.woken_by_runner_side,
@@ -1175,25 +1366,50 @@ fn main() {
                     let ok = det.hits.iter().any(|((v, l, o, nn), c)| {
                         v.starts_with("run") && !v.starts_with("run_") && l == p && *o == occ && *nn == n && *c > 0
                     });
-                    rep.require(ok, &format!("window {p}#{occ} (n={n}) never hit under run() [{pi}]"));
+                    require(ok, &format!("window {p}#{occ} (n={n}) never hit under run() [{pi}]"));
                 }
             }
         }
         for label in ["tick:start", "tick:resumed", "tick:end", "idle", "between-calls", "mid-yield"] {
             let ok = det.hits.iter().any(|((_, l, _, _), c)| *l == label && *c > 0);
-            rep.require(ok, &format!("window class {label} never hit"));
+            require(ok, &format!("window class {label} never hit"));
         }
-        rep.require(det.cases_all_fired >= 10_000, "fewer than 10000 deterministic cases reached all their windows");
-        rep.require(stress.wakes >= args.budget(20_000, 2_000_000, 0) as u64, "stress: wake budget not reached");
+        require(det.cases_all_fired >= 10_000, "fewer than 10000 deterministic cases reached all their windows");
+        require(stress.wakes >= args.budget(100_000, 3_000_000, 0) as u64, "stress: wake budget not reached");
         let non_idle: u64 = (0..14).filter(|i| *i != L_IDLE as usize).map(|i| stress.at[i]).sum();
-        rep.require(non_idle >= 1_000, "stress: fewer than 1000 wakes landed while the runner was not idle");
+        require(non_idle >= 300, "stress: fewer than 300 wakes landed while the runner was not idle");
         let distinct_at = (0..14).filter(|i| stress.at[*i] > 0).count();
-        rep.require(distinct_at >= 8, "stress: wakes landed in fewer than 8 distinct runner positions");
+        require(distinct_at >= 8, "stress: wakes landed in fewer than 8 distinct runner positions");
     } else {
-        rep.require(det.cases >= 1, "miri: no deterministic case run");
-        rep.require(stress.wakes >= 1, "miri: no cross-thread wake");
+        require(det.cases >= 1, "miri: no deterministic case run");
+        require(stress.wakes >= 1, "miri: no cross-thread wake");
     }
+    for p in det.harness_problems.iter() {
+        require(false, p);
+    }
+    require(!stress.hang_guard, "stress: hang guard fired / run() returned");
 
+    if miri {
+        // one pre-formatted line, one write (see SINGLE_WRITE); same fields as Reporter::finish
+        extra.remove("det_wakes_fired_per_window");
+        extra.remove("det_distinct_windows_hit_per_variant");
+        write_line(&json!({
+            "t": "summary", "prop": "C27", "evaluations": rep.evaluations,
+            "distinct_nontrivial": rep.distinct_count(),
+            "rule": "Miri slice: a thin sample of the deterministic window cases (identical for every Miri seed) plus \
+                     cross-thread rounds (1-2 threads x 1-2 wakes against run(), fresh dataflow every 2 rounds) whose \
+                     thread schedule and weak-memory behaviour depend on the Miri seed; same oracle as the native tier.",
+            "samples": [], "exhaustive": false, "min_obs_ok": min_fail.is_empty(), "min_obs_reason": min_fail,
+            "extra": extra, "violations": OWN_VIOLATIONS.load(Relaxed)
+        }));
+        return;
+    }
+    for (k, v) in extra {
+        rep.extra(&k, v);
+    }
+    for r in min_fail.iter() {
+        rep.require(false, r);
+    }
     rep.finish(
         "Real Dfir (Dfir::new around a tick-counting harness closure) polled by a hand-written executor. \
          Deterministic part: for each of 16 runner variants (run() / repeated run_available() / `while run_tick()` \
@@ -1202,12 +1418,13 @@ fn main() {
          being (program point of the runner [10 hook points] | inside tick start/resumed/end | runner at rest | \
          between calls | suspended mid-way) x occurrence 0..=3; plus random triples with occurrences <= 5. \
          Cross-thread part: 1-2 threads fire Context::waker() 1-32 times each at random delays against run() on a \
-         spinning or parking executor, fresh dataflow every 1-8 rounds. Every wake records tick_starts just before \
-         it is invoked; judged when the runner is at rest (future Pending, executor flag clear, wakers joined): \
+         spinning or parking executor (the runner lingers at random program points until the next wake lands), \
+         fresh dataflow every 1-8 rounds. Every wake records tick_starts just before \
+         it is invoked; judged when the runner is at rest (future Pending, executor flag clear, wakers done): \
          tick_starts must have grown. A deterministic case is non-trivial (counted by distinct (variant, plan)) \
          if all its planned windows were actually reached and a wake fired there; a stress round is non-trivial \
          (counted by distinct (threads, set of runner positions seen by the wakes)) if a wake landed while the \
          runner was not idle.",
-        !miri,
+        true,
     );
 }
